@@ -60,6 +60,20 @@ IS_LON_EXACT = z3.Function('csv_is_lon_header_exact', z3.IntSort(), z3.BoolSort(
 INT_OK = z3.Function('csv_int_ok', z3.IntSort(), z3.IntSort(), z3.BoolSort())
 
 
+_FIELD_IS = {}
+
+
+def field_is(literal):
+    """field (row, col) == literal, one uninterpreted predicate per string literal of the code"""
+    if literal not in _FIELD_IS:
+        import re
+        _FIELD_IS[literal] = z3.Function('csv_field_is_' + re.sub(r'\W', '_', literal), z3.IntSort(), z3.IntSort(), z3.BoolSort())
+    return _FIELD_IS[literal]
+
+
+CSV_INSTANT_US = z3.Function('csv_instant_us', z3.IntSort(), z3.IntSort(), z3.IntSort())      # UTC instant a time field denotes
+
+
 def csv_field(row, col, lowered=False):
     row, col = to_z3(row), to_z3(col)
 
@@ -83,6 +97,8 @@ def csv_field(row, col, lowered=False):
             return IS_LON(row)
         if isinstance(other, str) and not lowered and other == 'lon' and simp(col == 0) is True:
             return IS_LON_EXACT(row)
+        if isinstance(other, str) and other and not lowered:
+            return field_is(other)(row, col)
         raise Unsupported('comparison of a csv field with %r' % (other,))
     f = Opaque('csvfield', is_str=True, row=row, col=col, as_float=as_float, as_int=as_int, eq_value=eq_value,
                truth=z3.Not(IS_EMPTY(row, col)))
